@@ -398,6 +398,21 @@ func genConfig(c runCfg, o *Out, emit func(...string)) {
 		// a "dashboard session": every update posts one of two sections back in full, a few fields edited
 		dash := r.Chance(35)
 		dashSecs := []string{strings.SplitN(props[r.Intn(len(props))].name, ".", 2)[0], strings.SplitN(props[r.Intn(len(props))].name, ".", 2)[0]}
+		if r.Chance(25) {
+			// a command-line value (possibly the very value the file already has) followed by an API update of the
+			// same setting to something else: the command line keeps winning, the file gets the update
+			var bools []cfProp
+			for _, p := range props {
+				if p.typ == "bool" {
+					bools = append(bools, p)
+				}
+			}
+			p := bools[r.Intn(len(bools))]
+			v := r.Intn(2)
+			emit("cf", "overwrite", p.name, "b:"+strconv.Itoa(v))
+			emit("cf", "update", p.name+"=b:"+strconv.Itoa(1-v), "0")
+			emit("cf", "update", p.name+"=b:"+strconv.Itoa(v), "0")
+		}
 		for i := 0; i < 3+r.Intn(8); i++ {
 			switch x := r.Intn(100); {
 			case x < 18:
